@@ -46,14 +46,21 @@ def build(tier, seed):
     # lengths whose varints take two bytes (block.c's slow decode path, the builder's varint encode): templated
     # keys (order and shared-prefix lengths are the shape, every byte no comparison decides on is symbolic)
     # (single-entry shapes first: a mis-decoded length there fails at once instead of sending symex through garbage)
-    longs = [([2], [0], [128], 1), ([128], [0], [1], 1), ([1], [0], [127], 1), ([1, 129], [0, 1], [128, 0], 2), ([130, 130], [0, 129], [0, 200], 1)]
+    longs = [([2], [0], [128], 1), ([128], [0], [1], 1), ([1], [0], [127], 1), ([2], [0], [200], 1), ([200], [0], [1], 1),
+             ([1, 129], [0, 1], [128, 0], 2), ([130, 132], [0, 129], [0, 200], 2), ([130, 131], [0, 128], [0, 0], 2)]
     if not quick:
         longs += [([130, 131], [0, 127], [127, 129], 2), ([128, 2, 131], [0, 1, 1], [1, 129, 0], 16), ([2, 130], [0, 2], [1, 127], 2),
-                  ([130, 131], [0, 128], [0, 0], 2), ([130, 131], [0, 127], [0, 200], 1)]
+                  ([130, 131], [0, 127], [0, 200], 1), ([130, 130], [0, 129], [0, 200], 1), ([200, 255], [0, 192], [1, 0], 2), ([2], [0], [255], 1), ([2], [0], [256], 1), ([2], [0], [383], 1)]
     # not finished (SAT reduction beyond 10 GB): long-entry blocks of more than 512 bytes, e.g. keys 130/130 with values 127/129 at interval 1
     for i, (kls, lcps, vls, ri) in enumerate(longs):
-        qs.append(bq("block_rt_long%d_ri%d" % (i, ri), "h_block_roundtrip", kls, vls, ri, 1024, witness=(i == 3), unwind=max(kls + vls) + 4,
+        qs.append(bq("block_rt_long%d_ri%d" % (i, ri), "h_block_roundtrip", kls, vls, ri, 1024, witness=(i == 5), unwind=max(kls + vls) + 4,
                      extra={"KT": shapes.cbytes2(shapes.key_templates(kls, lcps), max(kls))}))
+    # decode_entry() alone: every triple of 32-bit lengths (the shapes above probe chosen lengths only)
+    qs.append(Query("decode_entry_all_lengths", harness="c01_block.c", entry="h_decode_entry", defines={"N": 1, "KLS": "{1}", "VLS": "{1}", "RI": 1, "BUFCAP": 64, "KLMAX": 4, "VLMAX": 4},
+                    units=BU, unwind=17, object_bits=8, timeout=900, mem_gb=8, witness=True,
+                    sample={"symbolic": "shared, non_shared, value_length: all 2^96 triples; 0..2 spare bytes after the entry", "reference": "LEB128 encoder in the harness"}))
+    # (block_builder_add() with symbolic LENGTHS -- memcpy of a solver-chosen size into the builder's buffer -- ran out of
+    #  12 GB within a minute even for lengths <= 20/140; the writer side keeps enumerated lengths)
     qs.append(bq("builder_init", "h_builder_init", [1], [1], 1, witness=True))
     # ---- writer half: every configuration axis, decoded independently ----
     shp = wc.standard_shapes(tier, "rt")
@@ -92,7 +99,7 @@ def build(tier, seed):
     meta = {
         "functions": wc.FUNCS + rc.FUNCS + ["block_iter_seek_to_last", "block_iter_prev"],
         "units": ["mtbl/writer.c", "mtbl/block_builder.c", "mtbl/block.c", "mtbl/reader.c"] + wc.UNITS,
-        "bounds": "block level: <= 4 entries, keys <= 3 bytes (all bytes symbolic), restart interval 1..4, builder buffer growth from 4/8/16 bytes; plus <= 3 entries with key/value/shared-prefix lengths 127..131 and 200 (two-byte length varints; templated keys: bytes that decide order or are shared are fixed, the rest and all value bytes symbolic); file level: writer shapes as C09 (incl. compression ids 1..5, default and explicit levels, foreign prefix), reader shapes as C11; every value byte and every key byte not deciding order symbolic (block level: all key bytes symbolic)",
+        "bounds": "decode_entry(): every triple of 32-bit lengths against a reference LEB128 header; block level: <= 4 entries, keys <= 3 bytes (all bytes symbolic), restart interval 1..4, builder buffer growth from 4/8/16 bytes; plus <= 3 entries with key/value/shared-prefix lengths 127..131 and 200 (two-byte length varints; templated keys: bytes that decide order or are shared are fixed, the rest and all value bytes symbolic); file level: writer shapes as C09 (incl. compression ids 1..5, default and explicit levels, foreign prefix), reader shapes as C11; every value byte and every key byte not deciding order symbolic (block level: all key bytes symbolic)",
         "outside": "mtbl_dump: main()'s getopt/hex_decode parsing and the non-hex (escaped string) output mode; writer and reader are not run in ONE query on the same bytes: the writer's file is judged by an independent decoder and the reader by an independent encoder of the same format description (DESIGN.md C01 split); real codecs in the loop (C15); keys/values >= 128 bytes beyond the listed 127..131/200-byte shapes (block level, writer side, one reader-side file per format version); thread pool (C13)",
         "stubs": wc.STUBS + rc.STUBS,
         "assumptions": ["decoder (c_writer.c) and encoder (ref_encode.h) describe the same format"],
